@@ -70,6 +70,8 @@ type scen struct {
 	prim     int      // split: primary index of the first height
 	deep     bool     // split: explored by the split family in the thorough tier only
 	xview    bool     // scenario of the xview family (ext_xview_test.go; split is set as well)
+	catchup  bool     // scenario of the catchup family (ext_catchup_test.go; split is set as well)
+	lag      int      // catchup: blocks the others produce while the laggard lags
 }
 
 // Replay artefact / violation detail.
@@ -84,8 +86,9 @@ type caseRec struct {
 	AtStep   int          `json:"at_step"`
 	Text     string       `json:"text"`
 	Log      []string     `json:"log,omitempty"`
-	Split    *splitSpec   `json:"split,omitempty"` // split family: the scripted prefix the events came from
-	XView    *xviewSpec   `json:"xview,omitempty"` // xview family (ext_xview_test.go): the scripted prefix the events came from
+	Split    *splitSpec   `json:"split,omitempty"`   // split family: the scripted prefix the events came from
+	XView    *xviewSpec   `json:"xview,omitempty"`   // xview family (ext_xview_test.go): the scripted prefix the events came from
+	Catchup  *catchupSpec `json:"catchup,omitempty"` // catchup family (ext_catchup_test.go): the scripted prefix the events came from
 }
 
 // probeRec is one execution in flight (a file in <dir>/inflight while it
@@ -94,11 +97,12 @@ type caseRec struct {
 // flight one by one, each in a process of its own, and reports the one that
 // dies again as the violation.
 type probeRec struct {
-	Kind  string     `json:"kind"` // sched | split | xview
-	Scen  string     `json:"scenario"`
-	Sched *Sched     `json:"sched,omitempty"`
-	Split *splitSpec `json:"split,omitempty"`
-	XView *xviewSpec `json:"xview,omitempty"`
+	Kind    string       `json:"kind"` // sched | split | xview | catchup
+	Scen    string       `json:"scenario"`
+	Sched   *Sched       `json:"sched,omitempty"`
+	Split   *splitSpec   `json:"split,omitempty"`
+	XView   *xviewSpec   `json:"xview,omitempty"`
+	Catchup *catchupSpec `json:"catchup,omitempty"`
 }
 
 func (p probeRec) label() string {
@@ -107,6 +111,8 @@ func (p probeRec) label() string {
 		return "split:" + p.Scen + ":" + p.Split.String()
 	case "xview":
 		return "xview:" + p.Scen + ":" + p.XView.String()
+	case "catchup":
+		return "catchup:" + p.Scen + ":" + p.Catchup.String()
 	}
 	return p.Scen + ":" + p.Sched.Compact()
 }
@@ -187,6 +193,8 @@ type runOpts struct {
 	after func(w *netx.World) []netx.Problem
 	// maxPrefix overrides prefixCap (0: prefixCap).
 	maxPrefix int
+	// onBlocks is told about every applied composite hand-over (netx.EvBlocks).
+	onBlocks func(w *netx.World, ev netx.Event, info netx.BlocksInfo)
 }
 
 // run executes one schedule inside its own bubble.
@@ -283,7 +291,16 @@ func run(t *testing.T, sc *scen, s Sched, o runOpts) (res *result) {
 					res.Children = append(res.Children, c)
 				}
 			}
-			if err := w.Apply(ev); err != nil {
+			var err error
+			if ev.K == netx.EvBlocks { // composite hand-over (lib/netx/ext_c19_blocks.go)
+				var info netx.BlocksInfo
+				if info, err = w.ApplyBlocks(ev); err == nil && o.onBlocks != nil {
+					o.onBlocks(w, ev, info)
+				}
+			} else {
+				err = w.Apply(ev)
+			}
+			if err != nil {
 				res.End, res.Err = "error", fmt.Sprintf("step %d: %v", step, err)
 				res.Events = append(res.Events, ev)
 				break
@@ -291,6 +308,9 @@ func run(t *testing.T, sc *scen, s Sched, o runOpts) (res *result) {
 			res.Events = append(res.Events, ev)
 			res.Steps++
 			add(step, w.CheckSafety())
+			if os.Getenv("C19_NOCTX") == "" { // (development aid: what do the black-box oracles see on their own?)
+				add(step, ctxHeightCheck(w)) // ext_catchup_test.go
+			}
 			if o.after != nil {
 				add(step, o.after(w))
 			}
@@ -457,6 +477,14 @@ func run(t *testing.T, sc *scen, s Sched, o runOpts) (res *result) {
 		}
 		res.Log = w.Log
 		res.Warns = w.Warns
+		if os.Getenv("C19_ONE") != "" {
+			// supervisor probe: a service that died of a fatal log may leave its
+			// ledger's notification dispatcher blocked (the bubble then cannot
+			// end and the process dies); say why before that happens
+			for _, f := range w.Fatals {
+				fmt.Println("fatal-in-subject:", f)
+			}
+		}
 	}
 	synctest.Test(t, body)
 	return res
@@ -590,6 +618,12 @@ func scenarios(r *vk.Run, dir string) ([]*scen, error) {
 		sc.deep = true
 		out = append(out, sc)
 	}
+	// The catchup family (ext_catchup_test.go): one scenario per primary index and lag depth.
+	out = append(out, catchupScens(fam4, "")...)
+	for _, sc := range catchupScens(fam4S, ":srih") {
+		sc.deep = true
+		out = append(out, sc)
+	}
 	if r.Thorough() || os.Getenv("C19_N7") != "" {
 		fam7, err := netx.NewSetup(netx.Family{Name: "n7", N: 7}, dir)
 		if err != nil {
@@ -664,6 +698,8 @@ func TestCheck(t *testing.T) {
 			res, _, _ = runSplit(t, sc, *pr.Split, newConfStats())
 		case pr.Kind == "xview" && pr.XView != nil:
 			res, _, _ = runXView(t, sc, *pr.XView, newConfStats())
+		case pr.Kind == "catchup" && pr.Catchup != nil:
+			res, _, _ = runCatchup(t, sc, *pr.Catchup, newConfStats())
 		case pr.Sched != nil:
 			res = run(t, sc, *pr.Sched, runOpts{})
 		default:
@@ -682,6 +718,27 @@ func TestCheck(t *testing.T) {
 			fmt.Println("    blocks:", res.Blocks, "first block bytes:", res.BlockSize, "maxlive:", res.MaxLive, "children:", len(res.Children))
 		}
 		fmt.Println("probe:", pr.label(), res.End, res.Err)
+		os.Exit(0)
+	}
+	if one := os.Getenv("C19_CATCHUP"); one != "" {
+		// development aid: one catchup prefix (JSON catchupSpec), verbose
+		var sp catchupSpec
+		if err := json.Unmarshal([]byte(one), &sp); err != nil {
+			fmt.Println(err)
+			os.Exit(3)
+		}
+		sc := scenByName(scs, catchupScenName(sp.Prim, sp.D)+os.Getenv("C19_SPLIT_TAG"))
+		res, pol, _ := runCatchup(t, sc, sp, newConfStats())
+		for _, l := range res.Log {
+			fmt.Println("   ", l)
+		}
+		for _, l := range res.Warns {
+			fmt.Println("    warn:", l)
+		}
+		for _, p := range res.Problems {
+			fmt.Println("    PROBLEM:", p.Oracle, p.Step, p.Text)
+		}
+		fmt.Println("    catchup:", sp.String(), "end:", res.End, res.Err, "prefix:", res.PrefixLen, "events:", res.Steps, "blocks:", res.Blocks, "maxlive:", res.MaxLive, "onscript:", pol.onScript, pol.offReason, "info:", fmt.Sprintf("%+v", pol.info), "caught to h+", int(pol.caughtTo)-int(sc.setup.H0)-sc.Pad, "took part:", pol.took, "lag view:", pol.lagViews)
 		os.Exit(0)
 	}
 	if one := os.Getenv("C19_XVIEW"); one != "" {
@@ -800,14 +857,16 @@ func TestCheck(t *testing.T) {
 		level[sc.Name] = []Sched{{Scen: sc.Name}}
 	}
 	boundaryRuns := 0
-	var splitCov, algebraCov, xviewCov map[string]any
+	var splitCov, algebraCov, xviewCov, catchupCov map[string]any
 	for b := 0; b <= 2; b++ {
 		if b == 1 && os.Getenv("C19_FAMILIES") != "off" {
 			// the recovery class (directed families; they always run, whatever level 0 found)
-			algebraCov = exploreAlgebra(t, r, scs)
-			fmt.Printf("C19: recovery-algebra family: %v cases (%v cross-view), %.0fs elapsed\n", algebraCov["cases"], algebraCov["cross_cases"], r.Elapsed())
-			xviewCov = exploreXView(t, r, scs, &running)
-			fmt.Printf("C19: xview family: %v of %v specs run, %v with recovery messages carrying commits of two views, %.0fs elapsed\n", xviewCov["specs_run"], xviewCov["specs"], xviewCov["runs_with_recovery_carrying_two_views"], r.Elapsed())
+			if os.Getenv("C19_FAMILIES") != "catchup" { // (development aid: the catchup family alone)
+				algebraCov = exploreAlgebra(t, r, scs)
+				fmt.Printf("C19: recovery-algebra family: %v cases (%v cross-view), %.0fs elapsed\n", algebraCov["cases"], algebraCov["cross_cases"], r.Elapsed())
+				xviewCov = exploreXView(t, r, scs, &running)
+				fmt.Printf("C19: xview family: %v of %v specs run, %v with recovery messages carrying commits of two views, %.0fs elapsed\n", xviewCov["specs_run"], xviewCov["specs"], xviewCov["runs_with_recovery_carrying_two_views"], r.Elapsed())
+			}
 			if n, ok := xviewCov["specs_run"].(int); ok {
 				schedules.Add(n)
 			}
@@ -815,6 +874,17 @@ func TestCheck(t *testing.T) {
 				transitions.Add(n)
 			}
 			if os.Getenv("C19_FAMILIES") == "xview" { // development aid
+				break
+			}
+			catchupCov = exploreCatchup(t, r, scs, &running)
+			fmt.Printf("C19: catchup family: %v of %v specs run, %v on script, %v with the event loop held while blocks landed (%v with two), %.0fs elapsed\n", catchupCov["specs_run"], catchupCov["specs"], catchupCov["runs_on_script"], catchupCov["runs_with_loop_held"], catchupCov["runs_with_two_blocks_landed_while_held"], r.Elapsed())
+			if n, ok := catchupCov["specs_run"].(int); ok {
+				schedules.Add(n)
+			}
+			if n, ok := catchupCov["events"].(int); ok {
+				transitions.Add(n)
+			}
+			if os.Getenv("C19_FAMILIES") == "catchup" { // development aid
 				break
 			}
 			splitCov = exploreSplits(t, r, scs, &running)
@@ -989,24 +1059,29 @@ func TestCheck(t *testing.T) {
 		n7 = fmt.Sprintf("built with 7 generated standby validators; completed deviation bound %d over %d height(s)", completed["n7-base"], sc.Heights)
 	}
 	r.Finish(map[string]any{
-		"states":                                      int(states.Get()),
-		"transitions":                                 int(transitions.Get()),
-		"traces_validated_against_impl":               int(schedules.Get()),
-		"schedules":                                   int(schedules.Get()),
-		"schedules_pruned_by_state_hash":              int(pruned.Get()),
-		"completed_bound_per_scenario":                completed,
-		"completed_bound_all":                         minCompleted,
-		"schedules_per_bound":                         levelSizes,
-		"distinct_final_outcomes":                     stateDist.Len(),
-		"scenarios":                                   scNames,
-		"boundary_scenarios":                          boundaryNames,
-		"boundary_scenarios_run":                      boundaryRuns,
-		"boundary_scenarios_completed":                boundaryDone,
-		"boundary_limits":                             map[string]int{"MaxBlockSystemFee": netx.LimMaxBlockSystemFee, "MaxBlockSize": netx.LimMaxBlockSize, "MaxTransactionsPerBlock": netx.LimMaxTxPerBlock},
-		"boundary_rule":                               "families n4lim / n4limS (StateRootInHeader): every validator pools the same content; contents: total system fee limit-1 / = / +1, single tx = limit, tx count limit-1 / = / +1, packed block size limit-1 / = / +1; x every primary (0..3 pad blocks); default schedule only; oracle: no ChangeView at all, block at view 0 holding exactly the limit-respecting prefix, serialised block within the limits",
-		"n7_status":                                   n7,
-		"family_split":                                splitCov,
-		"family_xview":                                xviewCov,
+		"states":                         int(states.Get()),
+		"transitions":                    int(transitions.Get()),
+		"traces_validated_against_impl":  int(schedules.Get()),
+		"schedules":                      int(schedules.Get()),
+		"schedules_pruned_by_state_hash": int(pruned.Get()),
+		"completed_bound_per_scenario":   completed,
+		"completed_bound_all":            minCompleted,
+		"schedules_per_bound":            levelSizes,
+		"distinct_final_outcomes":        stateDist.Len(),
+		"scenarios":                      scNames,
+		"boundary_scenarios":             boundaryNames,
+		"boundary_scenarios_run":         boundaryRuns,
+		"boundary_scenarios_completed":   boundaryDone,
+		"boundary_limits":                map[string]int{"MaxBlockSystemFee": netx.LimMaxBlockSystemFee, "MaxBlockSize": netx.LimMaxBlockSize, "MaxTransactionsPerBlock": netx.LimMaxTxPerBlock},
+		"boundary_rule":                  "families n4lim / n4limS (StateRootInHeader): every validator pools the same content; contents: total system fee limit-1 / = / +1, single tx = limit, tx count limit-1 / = / +1, packed block size limit-1 / = / +1; x every primary (0..3 pad blocks); default schedule only; oracle: no ChangeView at all, block at view 0 holding exactly the limit-respecting prefix, serialised block within the limits",
+		"n7_status":                      n7,
+		"family_split":                   splitCov,
+		"family_xview":                   xviewCov,
+		"family_catchup":                 catchupCov,
+		"catchup_specs_run":              catchupCov["specs_run"],
+		"catchup_distinct_outcomes":      catchupCov["distinct_outcomes"],
+		"catchup_runs_with_loop_held":    catchupCov["runs_with_loop_held"],
+		"catchup_runs_with_two_blocks_landed_while_held": catchupCov["runs_with_two_blocks_landed_while_held"],
 		"xview_specs_run":                             xviewCov["specs_run"],
 		"xview_distinct_outcomes":                     xviewCov["distinct_outcomes"],
 		"xview_runs_with_recovery_carrying_two_views": xviewCov["runs_with_recovery_carrying_two_views"],
@@ -1023,6 +1098,7 @@ func TestCheck(t *testing.T) {
 		"receiver-independence reduction: a deviation is only tried at the moment the default event belongs to the same node; the creation order of other nodes' outputs may differ from an unreduced search",
 		"liveness is demanded only of states without silenced nodes and of continuations without loss; carry oracle: view 0 block = the primary's verified mempool when it proposed, later views a subset (the service re-proposes the previous proposal by design)",
 		"one shared bubble clock with fixed per-node skews; a timer event advances the clock to that timer's deadline",
+		"catchup family: 'the consensus event loop is busy while blocks arrive' is modelled by the harness's own dbft.Timer taking long inside ONE Now/Reset/Extend call of the trigger turn (or, for a restarted service, by the blocks landing inside that call of dbft.Start); at most two blocks land while a running loop is held (a third AddBlock would wait behind the capacity-1 subscription channel); landings that race with an idle loop are not explored (not reproducible); context-height is the only oracle that reads the dBFT context (through hook H3)",
 	})
 }
 
@@ -1089,6 +1165,8 @@ func replay(t *testing.T, r *vk.Run, scs []*scen) {
 		switch {
 		case len(c.Events) == 0 && c.XView != nil: // recorded by the supervisor: the worker running this scripted prefix died
 			res, _, _ = runXView(t, sc, *c.XView, newConfStats())
+		case c.Catchup != nil: // the participation oracle needs the whole scripted run
+			res, _, _ = runCatchup(t, sc, *c.Catchup, newConfStats())
 		case len(c.Events) == 0 && c.Split != nil:
 			res, _, _ = runSplit(t, sc, *c.Split, newConfStats())
 		default:
@@ -1163,7 +1241,7 @@ func supervise() {
 			continue
 		}
 		var pr probeRec
-		if json.Unmarshal(bs, &pr) != nil || (pr.Sched == nil && pr.Split == nil && pr.XView == nil) {
+		if json.Unmarshal(bs, &pr) != nil || (pr.Sched == nil && pr.Split == nil && pr.XView == nil && pr.Catchup == nil) {
 			continue
 		}
 		var out bytes.Buffer
@@ -1186,8 +1264,17 @@ func supervise() {
 		if what != "" {
 			found = true
 			txt := out.String()
+			var fatals []string
+			for _, l := range strings.Split(txt, "\n") {
+				if strings.HasPrefix(l, "fatal-in-subject:") {
+					fatals = append(fatals, l)
+				}
+			}
 			if i := strings.Index(txt, "panic:"); i >= 0 {
 				txt = txt[i:]
+			}
+			if len(fatals) > 0 {
+				txt = strings.Join(fatals, "\n") + "\n" + txt
 			}
 			if len(txt) > 3000 {
 				txt = txt[:3000]
@@ -1201,6 +1288,8 @@ func supervise() {
 				r.Violation(fmt.Sprintf("%s:split:%s:%s", what, pr.Scen, pr.Split.String()), caseRec{Oracle: what, Scenario: pr.Scen, N: n, Schedule: pr.Split.String(), Text: txt, Split: pr.Split})
 			case "xview":
 				r.Violation(fmt.Sprintf("%s:xview:%s:%s", what, pr.Scen, pr.XView.String()), caseRec{Oracle: what, Scenario: pr.Scen, N: n, Schedule: pr.XView.String(), Text: txt, XView: pr.XView})
+			case "catchup":
+				r.Violation(fmt.Sprintf("%s:catchup:%s:%s", what, pr.Scen, pr.Catchup.String()), caseRec{Oracle: what, Scenario: pr.Scen, N: n, Schedule: pr.Catchup.String(), Text: txt, Catchup: pr.Catchup})
 			default:
 				s := *pr.Sched
 				r.Violation(fmt.Sprintf("%s:%d:%d:%s:%s", what, n, len(s.Devs), s.Scen, s.Compact()), caseRec{Oracle: what, Scenario: s.Scen, N: n, Bound: len(s.Devs), Schedule: s.Compact(), Devs: s.Devs, Text: txt})
